@@ -78,3 +78,8 @@ package confirm
 //@   -- the post-register hook takes over the response, so registration does not log the user in
 //@   ensures intercepts: result.1 == nil ==> (result.0 && emits Redirect(_) && emits Store.Save(?s) -> ?e :: e == nil && !Confirmed(s))
 //@   ensures never_touches_session: !emits Sess.Put(_, _)
+//
+//@ func Middleware#1
+//@   property C03
+//@   -- the handler that is returned guards exactly the handler that was passed in
+//@   ensures guards_given_handler: bound(result, "next") == next && bound(result, "ab") == ab
